@@ -39,9 +39,12 @@ CLAIMED = {
     'C08': ('Lean 4 proof: contract evaluation points from the exact effect log; failure is the last effect (error-origin theorem) + correspondence',
             'evaluated_at_documented_points (the cond entries of the log are exactly the documented points interleaved with the code), '
             'invariants_even_without_step, pre/post/invariant_failure_is_immediate. ' + TIE, '§6 C08'),
-    'C09': ('Lean 4 proof: relational frame (RNC) over all of execute_once: with ignore_contract no condition is evaluated and no ContractError can arise + correspondence',
-            'no_evaluation_when_ignored, no_contract_error_when_ignored, log_differs_only_by_evaluations, for all outcomes of the call. PARTIAL: the '
-            'two-run statement (same run with and without contracts when no condition fails) is checked by the tie, not proved. ' + TIE, '§6 C09'),
+    'C09': ('Lean 4 proof: two-run simulation (the contract-ignoring run follows the checking run step by step through all of execute_once) + relational frame: nothing evaluated, no ContractError when ignoring + correspondence',
+            'ignoring_simulates_checking(_run): for every evaluator whose guards and code are blind to a relation eqv (for PythonEvaluator: equal up to the frozen '
+            '__old__ contexts) and every run in which no condition fails or errs, the run ignoring contracts returns the same macro steps and reaches states with '
+            'equal configuration, memory, queues, times, sent events, outside world, eqv-related contexts and the same log minus the condition evaluations; '
+            'no_evaluation_when_ignored, no_contract_error_when_ignored, log_differs_only_by_evaluations for all outcomes. The blindness hypothesis is about the '
+            'evaluator, which is modelled (Py.lean) and tied: the tie runs every history under both settings. ' + TIE, '§6 C09'),
     'C10': ('Lean 4 proof: meta-event stream derived from the exact log; fail-fast via error-origin theorem + correspondence with real property statecharts',
             'meta_stream / meta_stream_none (documented meta-events in the order things happened), property_failure_is_immediate, '
             'listeners_see_step_time. ' + TIE, '§6 C10'),
